@@ -2,6 +2,7 @@ package main
 
 import (
 	"fmt"
+	"go/token"
 	"go/types"
 
 	"golang.org/x/tools/go/ssa"
@@ -251,4 +252,115 @@ func ruleNotHeldAtCalls(p *Prog, r *Report, may *LockInfo, key, rule string, pr 
 		r.OK(key, rule, "-", fmt.Sprintf("%d site(s) of %s, none with a forbidden lock possibly held", n, what))
 	}
 	return n
+}
+
+// nilFieldRule (R-NILFIELD): a pointer-typed struct field that can be nil at
+// some program point. Every dereference of a value loaded from it (field
+// selection, method call with it as receiver, explicit *) in the scope must be
+// dominated by a non-nil test of the same value or of a load with the same
+// access path, or by one of the extra guards, or sit in a function listed in
+// Exempt with its reason.
+type nilFieldRule struct {
+	Key    string
+	Field  *types.Var
+	Scope  []*ssa.Function
+	Extra  func(deref ssa.Instruction, loaded ssa.Value) (bool, string) // alternative guard (e.g. correlated flag)
+	Exempt map[string]string                                            // top-level function -> reason
+}
+
+func ruleNilField(p *Prog, r *Report, nr nilFieldRule) int {
+	if nr.Field == nil {
+		r.Undecided(nr.Key, "R-NILFIELD", "field not found")
+		return 0
+	}
+	n, bad := 0, 0
+	used := map[string]bool{}
+	for _, fn := range nr.Scope {
+		eachInstr(fn, func(in ssa.Instruction) {
+			v, ok := in.(ssa.Value)
+			if !ok || loadedField(v) != nr.Field {
+				return
+			}
+			if _, isCall := v.(*ssa.Call); isCall {
+				return // getter: nil-safe by construction
+			}
+			refs := v.Referrers()
+			if refs == nil {
+				return
+			}
+			vp := path(v)
+			for _, ref := range *refs {
+				deref := false
+				switch x := ref.(type) {
+				case *ssa.FieldAddr:
+					deref = x.X == v
+				case *ssa.Field:
+					deref = x.X == v
+				case *ssa.UnOp:
+					deref = x.Op == token.MUL && x.X == v
+				case ssa.CallInstruction:
+					c := x.Common()
+					if !c.IsInvoke() && len(c.Args) > 0 && c.Args[0] == v {
+						if callee := c.StaticCallee(); callee != nil && callee.Signature.Recv() != nil && !nilSafeMethod(callee) {
+							deref = true
+						}
+					}
+				}
+				if !deref {
+					continue
+				}
+				n++
+				r.Sites++
+				r.Func(funcName(fn))
+				guarded := guardedBy(ref, func(a Atom) bool {
+					m, isNil := nilTestOn(a, func(x ssa.Value) bool { return x == v || path(x) == vp })
+					return m && !isNil
+				})
+				if guarded {
+					continue
+				}
+				if nr.Extra != nil {
+					if ok, _ := nr.Extra(ref, v); ok {
+						continue
+					}
+				}
+				top := fn
+				for top.Parent() != nil {
+					top = top.Parent()
+				}
+				if _, ok := nr.Exempt[funcName(top)]; ok {
+					used[funcName(top)] = true
+					continue
+				}
+				bad++
+				r.Fail(fmt.Sprintf("%s.deref@%s", nr.Key, funcName(fn)), "R-NILFIELD", p.InstrPos(ref),
+					fmt.Sprintf("%s (field %s, which can be nil) is dereferenced in %s without a dominating non-nil test on the same access path; facts here: %s", vp, nr.Field.Name(), funcName(fn), atomsString(atomsAt(ref.Block()))))
+			}
+		})
+	}
+	for fn := range nr.Exempt {
+		if !used[fn] {
+			r.Fail(nr.Key+".stale-exception."+fn, "R-NILFIELD", "-", "table row for "+fn+" no longer matches any unguarded dereference (stale table row)")
+		}
+	}
+	if bad == 0 {
+		r.OK(nr.Key, "R-NILFIELD", "-", fmt.Sprintf("all %d dereference(s) through %s are guarded", n, nr.Field.Name()))
+	}
+	return n
+}
+
+// nilSafeMethod: the method's first action is to test its receiver for nil
+// and return.
+func nilSafeMethod(f *ssa.Function) bool {
+	if len(f.Blocks) == 0 || len(f.Params) == 0 {
+		return false
+	}
+	b := f.Blocks[0]
+	iff, ok := b.Instrs[len(b.Instrs)-1].(*ssa.If)
+	if !ok {
+		return false
+	}
+	a := atomOf(iff.Cond, true)
+	m, _ := nilTestOn(a, func(v ssa.Value) bool { return v == ssa.Value(f.Params[0]) })
+	return m
 }
